@@ -13,20 +13,3 @@ NOTES = ("All checks: ./check <id> quick|thorough. Each check regenerates coq/Ge
          "Props/<id>.v, scans for forbidden tokens, rebuilds the Go harness against /repo's working tree with -tags verif, runs the "
          "engine and evaluates the generated cases with vm_compute. See DESIGN.md.")
 
-NOT_APPLICABLE = {}
-
-ENGINE_TEXT = {
-    "numeric": "direct calls + end-to-end range queries; cases evaluated by Search/NumericCorr.v",
-}
-
-META = {
-    "C10": dict(
-        text=("Theorems in Coq over an executable model of float.go / prefix_coded.go / splitInt64Range / Enumerate cover all 2^64 "
-              "values and all intervals; the model is tied to the code on every run by evaluating it (vm_compute) on the "
-              "implementation's observed outputs for boundary and random inputs, and by regenerated constants (T-gen)."),
-        design_ref="DESIGN.md Part 2 C10",
-        note=("Trusted: Coq kernel, goextract, harness. The vellum dictionary is a parameter of the model. Known finding D8 "
-              "(Enumerate blow-up on ranges crossing a 7-bit digit boundary) is listed in KNOWN_FINDINGS.json."),
-        technique="Coq proof (lia, bit lemmas) + vm_compute correspondence on observed outputs",
-    ),
-}
